@@ -158,7 +158,15 @@ func runUnits(c *core.Check, st *tmpl.Static, units []unit, analyse func(r *rend
 					for n := range w.Notes {
 						us.Notes[n] = true
 					}
-					h := sha1.Sum([]byte(r.Text + "\x00" + strings.Join(r.Libs, ",")))
+					// identical text under a different abstract struct (field count, shapes, requiredness) is a different case
+					var shapeKeys []string
+					for ck, cv := range r.Choices {
+						if !strings.HasPrefix(ck, "Features.") {
+							shapeKeys = append(shapeKeys, fmt.Sprintf("%s=%d", ck, cv))
+						}
+					}
+					sort.Strings(shapeKeys)
+					h := sha1.Sum([]byte(r.Text + "\x00" + strings.Join(r.Libs, ",") + "\x00" + strings.Join(shapeKeys, ",")))
 					if r.Err == nil && seen[h] {
 						return
 					}
